@@ -870,9 +870,8 @@ pub fn headers(bytes: &Bytes) -> Result<(HeaderMap, usize), Error> {
                     name_end = pos;
                     if bytes.get(pos + 1) != Some(&chars::SPACE) {
                         parse_stage.next();
-                        let rest = &bytes[pos..];
-                        value_start =
-                            rest.iter().copied().position(|b| b != b' ').unwrap_or(0) + pos;
+                        // No space after the colon: the value starts right after it.
+                        value_start = pos + 1;
                     }
                     continue;
                 }
